@@ -243,6 +243,15 @@ def mon_c05_quant(sc, obs):
     return None
 
 
+def c10_quant_part(ctx):
+    """quantifier scenarios (instance sets and free-variable groundings growing in any order, nests) under several hash
+    seeds: every run must equal the (deterministic) model, hence every other run"""
+    scs, meta = gen_quant.gen_k50(ctx.rng("c10q"), 150 if ctx.quick else 2000, downward=True, nested=0.3)
+    s2, m2 = gen_quant.gen_k50_interleaved(ctx.rng("c10qi"), 40 if ctx.quick else 500)
+    run_q(ctx, "K7 quantifiers under several hash seeds", scs + s2, [], hashseeds=(0, 1, 2, 3) if ctx.quick else (0, 1, 2, 3, 4, 5, 6, 7))
+    ctx.cov["quantifier_distribution"] = qdist(meta + m2)
+
+
 def c05_quant_part(ctx):
     scs, meta = gen_quant.gen_k50(ctx.rng("c05q"), 300 if ctx.quick else 4000, downward=True, nested=0.3)
     s2, m2 = gen_quant.gen_k50_interleaved(ctx.rng("c05qi"), 60 if ctx.quick else 800)
@@ -397,22 +406,23 @@ def gen_c12(ctx, n):
     # nested (variadic) quantifiers, the same textbook shape one level up: Forall(x, y, not N(x, y)) refuted by its world (Exists
     # dually proved) while TWO x-groups each hold one undetermined instance: nothing is forced; the hidden reading makes one
     # group the culprit and the other one innocent
-    for _ in range(max(1, n // 8)):
-        kd = rng.choice([0, 1])
+    for _ in range(max(1, n // 6)):
+        ko, ki = rng.choice([0, 1]), rng.choice([0, 1])       # outer / inner kind, all four combinations
         nx = rng.choice([2, 2, 3])
         kb = [[0, [], [], 2, list(gen_fol.DEFP), []], [1, [0], [[0, 1]], 2, list(gen_fol.DEFP), [[0, 1]]]]
-        decidedN = [F(0), F(0)] if kd == 0 else [F(1), F(1)]        # body = not N: TRUE for Forall, FALSE for Exists
-        culprit = rng.randrange(nx)
+        neutral = F(1) if ki == 0 else F(0)       # body value of the decided instance: neutral for the inner quantifier
+        target = F(0) if ko == 0 else F(1)        # value the special group must take for the outer world to hold
+        special = rng.randrange(nx)
         hidden, d = {}, []
         for c in range(nx):
-            hidden[(0, (c, 0))] = decidedN[0]
-            d.append([[c, 0], list(decidedN)])
-            hidden[(0, (c, 1))] = (1 - decidedN[0]) if c == culprit else decidedN[0]
+            hidden[(1, (c, 0))] = neutral
+            d.append([[c, 0], [1 - neutral, 1 - neutral]])
+            hidden[(1, (c, 1))] = target if c == special else 1 - target
             d.append([[c, 1], [F(0), F(1)]])
         for (i, g), v in list(hidden.items()):
-            hidden[(1, g)] = 1 - v
-        qobjs = [[kd, 1, [0], rng.choice([0, 2]), gen_fol.OPEN, [0, 1]],
-                 [kd, 2, [], rng.choice([0, 2]), (gen_fol.CLOSED if kd == 0 else gen_fol.AXIOM), [0]]]
+            hidden[(0, g)] = 1 - v
+        qobjs = [[ki, 1, [0], rng.choice([0, 2]), gen_fol.OPEN, [0, 1]],
+                 [ko, 2, [], rng.choice([0, 2]), (gen_fol.CLOSED if ko == 0 else gen_fol.AXIOM), [0]]]
         ops2 = [[1, 1], [20, 0], [20, 1], [21, 1], [21, 0], [2, 1, -1]]
         if rng.random() < 0.5:
             ops2 += [[1, 1], [20, 0], [20, 1], [21, 1], [21, 0], [2, 1, -1]]
@@ -426,6 +436,8 @@ def check_C12(ctx):
     st, pr = standard_prologue(ctx)
     scs, meta = gen_c12(ctx, 400 if ctx.quick else 5000)
     s2, m2 = gen_quant.gen_k50_interleaved(ctx.rng("c12i"), 60 if ctx.quick else 800)
+    s3, m3 = gen_quant.gen_k50_nested_full(ctx.rng("c12n"), 80 if ctx.quick else 1000)
+    s2, m2 = s2 + s3, m2 + m3
     for sc in s2:
         sc.append([])        # no hidden reading: these scenarios serve the exact comparison with the model
     scs, meta = scs + s2, meta + m2
